@@ -2,7 +2,7 @@
 import os
 
 from .. import common, evidence
-from . import c04, c07
+from . import c04, c05, c06, c07
 
 PID = 'C08'
 CASES = ['upper', 'capital', 'mixed']
@@ -14,31 +14,48 @@ def check(tier, replay_path=None):
         obj = common.read_json(replay_path)
         if 'pool' in obj:
             return c04.run(PID, tier, replay_path, CASES, '', '', [])
+        if 'item' in obj and 'home' in obj['item']:
+            return prebuilt(tier, replay_path)
         return c07.run(PID, tier, replay_path, False, CASES, '', '', [])
     path = os.path.join(common.EVIDENCE, PID + '.json')
     rc1 = c07.run(PID, tier, None, positions=False, cases=CASES, rule='', model='', assumptions=[])
     ev1 = common.read_json(path)
     rc2 = c04.run(PID, tier, None, cases=CASES, rule='', model='', assumptions=[])
     ev2 = common.read_json(path)
-    c1, c2 = ev1['coverage'], ev2['coverage']
+    rc3 = prebuilt(tier, None)
+    ev3 = common.read_json(path)
+    c1, c2, c3 = ev1['coverage'], ev2['coverage'], ev3['coverage']
     cov = {
-        'states': c1['states'] + c2['states'], 'transitions': c1['transitions'] + c2['transitions'],
-        'traces_validated_against_impl': c1['traces_validated_against_impl'] + c2['traces_validated_against_impl'],
-        'evaluations': c1['evaluations'] + c2['evaluations'],
-        'distinct_nontrivial': c1['distinct_nontrivial'] + c2['distinct_nontrivial'],
+        'states': c1['states'] + c2['states'] + c3['states'], 'transitions': c1['transitions'] + c2['transitions'] + c3['transitions'],
+        'traces_validated_against_impl': c1['traces_validated_against_impl'] + c2['traces_validated_against_impl'] +
+        c3['traces_validated_against_impl'],
+        'evaluations': c1['evaluations'] + c2['evaluations'] + c3['evaluations'],
+        'distinct_nontrivial': c1['distinct_nontrivial'] + c2['distinct_nontrivial'] + c3['distinct_nontrivial'],
         'rule': 'the corpora of C07 (every expression tree of depth <= 3, statement programs of every production) and of C04 '
                 '(executable bodies) are rendered with every keyword occurrence in UPPER case, Capitalised, or randomly mixed case '
                 '(END IF/FOR/WHILE included) and pushed through the same pipelines: TLC requires the parser to return the tree the '
                 'lower-case text denotes (keyword-valued fields compared case-folded) and the interpreter to compute the result and '
-                'final population OalExec!Run assigns to that tree - the specification has no notion of keyword case at all',
+                'final population OalExec!Run assigns to that tree - the specification has no notion of keyword case at all; the C05 corpus '
+                '(all four action homes) is prebuilt from the same renderings and TLC requires the population OalType.tla assigns to '
+                'the tree (statement kinds, predecessors, blocks, value types, variables, parameters) with the keyword-valued '
+                'attributes (select cardinality, binary / unary Operator, boolean literal Value) in one canonical letter case, and '
+                'the regenerated text to parse to the same tree',
         'samples': c1['samples'][:2] + c2['samples'][:2],
         'parse': {k: c1[k] for k in ('statements_by_kind', 'expression_trees_enumerated_by_tlc')},
         'execute': {k: c2[k] for k in ('statements_executed_by_kind', 'programs_outside_domain')},
-        'model': 'OalSyntax.tla / OalTrace.tla and OalExec.tla / OalExecTrace.tla (as C07, C04)',
+        'prebuild': {'actions_by_home': c3['actions_by_home']},
+        'model': 'OalSyntax.tla / OalTrace.tla, OalExec.tla / OalExecTrace.tla and OalType.tla / OalTypeTrace.tla (as C07, C04, C06)',
         'exhaustive': False,
     }
-    evidence.write(PID, tier, 'model_checking', cov, t.s(), ev1.get('violations', 0) + ev2.get('violations', 0), [
+    evidence.write(PID, tier, 'model_checking', cov, t.s(),
+                   ev1.get('violations', 0) + ev2.get('violations', 0) + ev3.get('violations', 0), [
         'identifiers never coincide with keywords, so every token whose lower-case form is a keyword is a keyword',
-        'prebuild under keyword case is covered by C05/C06 running on the same mixed-case renderings',
+        'the recorded source text of prebuilt instances (Action_Semantics, literal Value texts, positions) is not compared across cases',
     ])
-    return 1 if (rc1 or rc2) else 0
+    return 1 if (rc1 or rc2 or rc3) else 0
+
+
+def prebuilt(tier, replay_path):
+    return c05.run(PID, tier, replay_path, facts=True, module='MC_OalTypeTrace',
+                   mods=('OalSyntax', 'OalType', 'OalTypeTrace', 'MC_OalTypeTrace', 'TraceBase'), consts=c06.CONSTS,
+                   rule='', model='', assumptions=[], cases=CASES, strict=True)
